@@ -50,7 +50,7 @@ func (m *ModelServer) GetPublication(_ context.Context, request *traits.GetPubli
 }
 
 func (m *ModelServer) UpdatePublication(_ context.Context, request *traits.UpdatePublicationRequest) (*traits.Publication, error) {
-	if request.Publication.Id == "" {
+	if request.GetPublication().GetId() == "" { // (getters: a request may leave the publication out altogether)
 		return nil, status.Error(codes.InvalidArgument, "id is required")
 	}
 	return m.model.UpdatePublication(request.Publication.Id, request.Publication,
